@@ -159,6 +159,7 @@ def check(run):
     nkey = len(kc)
     for k in range(1 if run.tier == "quick" else 4):
         kc.append({"i": len(kc), "mode": "lockwin"})
+        kc.append({"i": len(kc), "mode": "lockwin2"})
     inf, outf = os.path.join(run.rundir, "key.in"), os.path.join(run.rundir, "key.out")
     with open(inf, "w") as f:
         for c in kc:
@@ -171,9 +172,12 @@ def check(run):
             rc, len(kres), len(kc), out[-1500:].decode(errors="replace"), [r["fail"] for r in kres if r.get("fail")][:2]))
     else:
         B_ = lambda x: str(bool(x)).lower()
-        lw = [(c, r) for c, r in zip(kc, kres) if c["mode"] == "lockwin"]
+        lw = [(c, r) for c, r in zip(kc, kres) if c["mode"].startswith("lockwin")]
         kc, kres = kc[:nkey], kres[:nkey]
         def lwterm(c, r):
+            if c["mode"] == "lockwin2":     # no output at all: the calm is up at 2.0 s (announced as soon as the write lock is free), output at 3.0 s is shown
+                return "mk [(0%%Z, CtrlO); (3000%%Z, Tick); (3001%%Z, Plain)] [([], [AnnMuting]); ([%s], []); ([], [%s])]" % (
+                    "AnnUnmuting" if r.get("unmuted_at_3000") else "", "Wrote" if r.get("chunk_shown") else "Dropped")
             e = "[(0%Z, CtrlO); (1900%Z, Plain); (3000%Z, Tick); (4800%Z, Tick)]"   # the chunk ARRIVES at 1.9 s (it is written, i.e. dropped, at 2.15 s)
             early, late = r.get("unmuted_at_3000"), r.get("unmuted_at_4800")
             o = "[([], [AnnMuting]); ([], [%s]); ([%s], []); ([%s], [])]" % ("Wrote" if r.get("chunk_shown") else "Dropped", "AnnUnmuting" if early else "",
